@@ -448,6 +448,7 @@ def main():
         maxw = int(os.environ.get("VERIF_JOBS", str(NCPU)))
         with ThreadPoolExecutor(max_workers=maxw) as ex:
             list(ex.map(lambda j: j.run(), jobs))
+        died_confirmed = False
         for j in jobs:
             ms = list(VIOL_RE.finditer(j.out))
             if ms:
@@ -466,6 +467,11 @@ def main():
             # abnormal exit: worker died (fatal error, race report, os kill)
             confirmed = False
             tail = j.out[-2500:]
+            if died_confirmed and "VERIF-HANG" in j.out:
+                # another worker ran into a suspected hang after one was confirmed already in this
+                # run: the verdict stands, confirming each of them would cost minutes apiece
+                log(f"  {j.name}: suspected hang not confirmed separately (a dead worker of this run was confirmed already)")
+                continue
             journals = sorted(glob.glob(os.path.join(rundir, "out", f"journal-*-{j.env['VERIF_WORKER']}.json")), key=os.path.getmtime)
             if cfg.get("journal") and journals:
                 # confirm each candidate journal in a fresh process
@@ -483,6 +489,7 @@ def main():
                             msg = "worker process died / reported while running this case: " + last_lines(r.out, 12)
                             violations.append((dst, msg))
                             confirmed = True
+                            died_confirmed = True
                             break
                     if confirmed:
                         break
@@ -539,7 +546,10 @@ def main():
 TOK_RE = re.compile(r'\{\{-?|-?\}\}|\{%-?|-?%\}|\{#|#\}|"(?:[^"\\\\]|\\\\.)*"|\'[^\']*\'|[A-Za-z_][A-Za-z_0-9]*|[0-9]+|\s+|.', re.S)
 
 
-def reduce_died_case(pid, binary, path, rundir, excludes, budget=60):
+REDUCTIONS = [0]
+
+
+def reduce_died_case(pid, binary, path, rundir, excludes, budget=30):
     """Bounded delta debugging for a case that kills the worker (rapid cannot shrink those).
     Works on descriptors that hold their template sources in case.files[case.entry] (C01):
     token chunks of the entry source, whole helper files and the mutation list are removed
@@ -551,6 +561,10 @@ def reduce_died_case(pid, binary, path, rundir, excludes, budget=60):
         files, entry = case["files"], case["entry"]
     except Exception:
         return path
+    # one reduced reproduction per run is enough (every probe of a case that hangs costs its bound)
+    REDUCTIONS[0] += 1
+    if REDUCTIONS[0] > 1:
+        return path
     runs = [0]
 
     def still_dies(c):
@@ -560,7 +574,7 @@ def reduce_died_case(pid, binary, path, rundir, excludes, budget=60):
         tmp = os.path.join(rundir, f"reduce-{runs[0]}.json")
         json.dump({"property": doc["property"], "spec": doc["spec"], "message": doc.get("message", ""), "case": c}, open(tmp, "w"))
         # (the reducer only asks "does it still fail the same way": the short bound will do)
-        r = run_replay(binary, tmp, rundir, f"reduce-{runs[0]}", excludes, timeout=180, hang_bound=30)
+        r = run_replay(binary, tmp, rundir, f"reduce-{runs[0]}", excludes, timeout=180, hang_bound=10)
         return r.rc != 0
 
     best = case
@@ -597,6 +611,12 @@ def reduce_died_case(pid, binary, path, rundir, excludes, budget=60):
                 break
             n = min(len(toks), n * 2)
     out = path.replace(".json", "-reduced.json")
+    if best is not case:
+        # the probes used a short bound: the reduced case must fail under the long one as well
+        tmp = os.path.join(rundir, "reduce-final.json")
+        json.dump({"property": doc["property"], "spec": doc["spec"], "message": doc.get("message", ""), "case": best}, open(tmp, "w"))
+        if run_replay(binary, tmp, rundir, "reduce-final", excludes, timeout=600).rc == 0:
+            return path
     doc["case"] = best
     doc["message"] = doc.get("message", "") + f" (reduced by the driver in {runs[0]} fresh-process runs)"
     json.dump(doc, open(out, "w"), indent=1)
